@@ -360,12 +360,40 @@ C10All(u) == UNION { { C10Scen(v, f, a) : f \in FaultPoints(v), a \in BOOLEAN } 
                 \cup { Common(v, TRUE, BaseMid, 1, 4) @@ [id |-> "C10/" \o v \o "/nofault", label |-> v \o "/nofault", path |-> Background(v, 1, 4, 4, {2})] : v \in Variants }
 
 ---------------------------------------------------------------------------
+(***************************************************************************)
+(* C14: schedule classes for the race detector.  For every TTL of a        *)
+(* parallel-capable variant the reply is delivered BEFORE its probe is     *)
+(* recorded (pre-queued: stale duplicates, spoofed early replies), AT the  *)
+(* instant of the send, or after it; duplicates included.  The wire is in  *)
+(* unsynchronised mode: the sink shares no state with the capture handle.  *)
+(***************************************************************************)
+ParVariants == {"icmp4", "icmp6", "udp4", "udp6", "sack"}
+C14Scen(v, cls, dupl) ==
+    LET mn == 1  mx == 8  dly == 10000
+        at(t) == CASE cls = "early" -> t                       \* long before probe t is recorded
+                   [] cls = "tie" -> (t - mn) * dly           \* at the very instant probe t is being sent
+                   [] cls = "after" -> (t - mn) * dly + 1500
+                   [] OTHER -> IF t % 2 = 0 THEN t ELSE (t - mn) * dly + 700
+        form(t) == IF t = mx THEN DestForm1(v) ELSE "te"
+    IN [id |-> "C14/" \o v \o "/" \o cls \o (IF dupl THEN "/dup" ELSE ""), label |-> v \o "/" \o cls \o (IF dupl THEN "/dup" ELSE ""),
+        variant |-> v, strict |-> FALSE, min |-> mn, max |-> mx, timeout_ms |-> 200, delay_ms |-> 10,
+        echo_base |-> 700, isn32 |-> <<65535, 65500>>, sack_perm |-> TRUE, sack_ts |-> FALSE,
+        unsync |-> TRUE, t_variant |-> v, t_eid |-> 701, t_dport |-> 33434,
+        t_local |-> IF IsV6(v) THEN "2001:db8:77::1" ELSE "10.77.0.1", t_target |-> IF IsV6(v) THEN "2001:db8:99::9" ELSE "198.51.100.9",
+        path |-> PathOf([t \in {1} |-> <<>>]),
+        inject |-> [k \in 1..(mx - mn + 1) |-> [at_us |-> at(mn + k - 1), for_ttl |-> mn + k - 1, form |-> form(mn + k - 1),
+                                              from |-> IF form(mn + k - 1) = "te" THEN Router(v, mn + k - 1) ELSE "TARGET",
+                                              dup |-> IF dupl THEN 1 ELSE 0, dup_us |-> 2500, tag |-> cls]]]
+C14All(u) == { C14Scen(v, c, d) : v \in ParVariants, c \in {"early", "tie", "after", "mixed"}, d \in BOOLEAN }
+
+---------------------------------------------------------------------------
 Cases == CASE Gen = "C01" -> C01All(0)
            [] Gen = "C02" -> C02All(NMax)
            [] Gen = "C04" -> C04All(0)
            [] Gen = "C05" -> C05All(0)
            [] Gen = "C06" -> C06All(0)
            [] Gen = "C08" -> C08All(0)
+           [] Gen = "C14" -> C14All(0)
            [] Gen = "C09" -> C09All(0)
            [] Gen = "C10" -> C10All(0)
            [] OTHER -> {}
